@@ -62,12 +62,8 @@ def run(ctx):
                     nsinks += 1
                     seen_tables.add(tbl)
                     v = e["binds"]["set"][col]
-                    alts = []
-                    if v[0] == "merge":
-                        for (pc, val) in interp.merges[v]:
-                            alts.append((tuple(e["pc"]) + tuple(pc), val))
-                    else:
-                        alts.append((tuple(e["pc"]), v))
+                    from ..events import expand_merges
+                    alts = expand_merges(interp, v, tuple(e["pc"]))
                     bad = None
                     for (pc, val) in alts:
                         pol = None
